@@ -128,6 +128,16 @@ CLAIMED["C15"] = dict(
     design="DESIGN.md §3 C15")
 
 PENDING = {"C15": None}
+CLAIMED["C19"] = dict(
+    text="The recursive converter (nested process_element, verified modularly against its own contract at every recursive call, with a "
+         "decreases measure on subtree size) is proved total (no exception for any OMML tree over the abstract ElementTree model), "
+         "brace-balanced for brace-free trees (count homomorphism), and to render each structural tag by its documented template; symbol "
+         "table invariants are ground obligations. Run order / exactly-once is only checked natively at small scope (BOUNDED).",
+    note="Assumed: ElementTree API total over a finite tree (validated natively against xml.etree); tag is a str; axiom instances for "
+         "uninterpreted character counts; RecursionError on very deep trees not modelled.",
+    technique="contract-based deductive verification: modular recursion + homomorphism lemmas over the real AST, z3",
+    design="DESIGN.md §3 C19")
+
 PENDING = {}
 
 ALL = [f"C{i:02d}" for i in range(1, 21)]
